@@ -9,7 +9,11 @@ def obs(seq):
     if pk is None:
         return None
     kind, timed, dur = pk
-    order = offs_first(timed) if kind != "rel" else timed
+    order = orc.abs_order(timed) if kind != "rel" else timed
+    if kind == "abs" and getattr(seq, "_rel_stale", True) is False and getattr(seq, "_rel", None) is not None:
+        rt, _ = orc.view_rel(seq._rel)
+        if any(p[0] != "nonpositive" for p in automaton(rt)[0]):
+            order = rt      # ill-formed in the stored relative order: not a well-formed input (see monitors._timed_of)
     pr, notes = automaton(order)
     return {"kind": kind, "events": events(timed), "dur": dur, "problems": pr,
             "notes": sorted((c, p, on, of - on, v) for (c, p, on, of, v, _, _) in notes),
